@@ -33,6 +33,12 @@ Oper(p, f, nonzero) ==
          [] OTHER -> IF p.nillable THEN "keep"              \* explicit zero guard (skipCopy) or the builder's own nil guard
                      ELSE IF p.skip THEN "conv"             \* identical types are assigned directly: nil overwrites
                      ELSE "keep"                            \* nil pointer / slice: the builder's nil guard never assigns
+\* category corners: the category of a field is that of its *source* type.  F int -> *int and G string -> *string are basic,
+\* H *int -> int (useZeroValueOnPointerInconsistency) is nillable; only :basic and :nillable matter
+CatFields == <<"F", "G", "H">>
+CatKind == [f \in {"F", "G", "H"} |-> IF f = "H" THEN "nillable" ELSE "basic"]
+CatProgs == [basic : BOOLEAN, nillable : BOOLEAN]
+CatMust(p, f, full) == IF full THEN "conv" ELSE IF (CatKind[f] = "basic" /\ p.basic) \/ (CatKind[f] = "nillable" /\ p.nillable) THEN "keep" ELSE "open"
 \* a nil source pointer leaves the target untouched
 MustNil(p, f) == "keep"
 =============================================================================
